@@ -7,7 +7,7 @@ use crate::report::{par_run, Report};
 use crate::rng::Rng;
 use serde_json::json;
 
-pub const RULE: &str = "All 22 indicators, every period 1..=64 (every period slot for multi-period ones, others varied), multipliers {0,-1,1e308,NaN,2}: seeded op programs of at least 3n+3 (and at least 60) client calls mixing ordinary values with NaN, +-inf, +-f64::MAX, subnormals, signed zeros, bars violating low<=close<=high, scalar and bar feeds, a second user bar type, reset, clone (clone then driven too), Display, Debug, period(), bincode serialize and serialize-deserialize-swap; sampled periods up to 4096; programs on Default::default() instances incl. ta::DataItem feeds and the constructors' rejection path; plus long runs of 3*10^5 calls for periods {1,2,3,7,64} (counters far past every wrap). Each call is wrapped in catch_unwind with the crate built with overflow checks and debug assertions; any panic or serialization error is a violation. Non-trivial: a program with >= 3n+3 next calls containing at least one non-finite or extreme input; distinct by construction (indicator, period tuple, repetition).";
+pub const RULE: &str = "All 22 indicators, every period 1..=64 (every period slot for multi-period ones, others varied), multipliers {0,-1,1e308,NaN,2}: seeded op programs of at least 3n+3 (and at least 60) client calls mixing ordinary values with NaN, +-inf, +-f64::MAX, subnormals, signed zeros, bars violating low<=close<=high, scalar and bar feeds, a second user bar type, reset, clone (clone then driven too), Display, Debug, period(), bincode serialize and serialize-deserialize-swap; sampled periods up to 4096; programs on Default::default() instances incl. ta::DataItem feeds and the constructors' rejection path; programs driven on a brand-new thread that constructed nothing (instance moved there, or restored there from bytes); plus long runs of 3*10^5 calls for periods {1,2,3,7,64} (counters far past every wrap). Each call is wrapped in catch_unwind with the crate built with overflow checks and debug assertions; any panic or serialization error is a violation. Non-trivial: a program with >= 3n+3 next calls containing at least one non-finite or extreme input; distinct by construction (indicator, period tuple, repetition).";
 
 const MULTS: [f64; 5] = [0.0, -1.0, 1e308, f64::NAN, 2.0];
 
@@ -289,8 +289,66 @@ fn run_defaults(ctx: &Ctx) -> Report {
     })
 }
 
+/// the instance is constructed (or restored from bytes) on one thread and driven on a brand-new
+/// thread that has constructed nothing: no per-thread setup may be assumed by next()
+fn run_foreign_thread(ctx: &Ctx) -> Report {
+    let seed = ctx.seed;
+    let reps = ctx.pick(2usize, 12usize);
+    let mut jobs = Vec::new();
+    for kind in ALL_KINDS {
+        for n in [1usize, 2, 7, 33, 100] {
+            if kind.n_periods() == 0 && n > 1 {
+                continue;
+            }
+            jobs.push((kind, n));
+        }
+    }
+    par_run(jobs, ctx.threads, move |(kind, n), rep| {
+        for r in 0..reps {
+            let p = params_with_slot(*kind, *n, r);
+            let mut rng = Rng::derive(seed, 0xC12F + *kind as u64 * 1000 + *n as u64, r as u64);
+            let mut ops = Vec::new();
+            for _ in 0..(3 * p.max_period() + 6) {
+                ops.push(gen_op(&mut rng, *kind, 0.1));
+            }
+            let mut inst = Inst::new(&p);
+            // half of the instances arrive as bytes and are restored on the foreign thread
+            let via_bytes = r % 2 == 1;
+            let bytes = if via_bytes { inst.ser().ok() } else { None };
+            let ops2 = ops.clone();
+            let res = std::thread::spawn(move || {
+                let mut inst = inst;
+                if let Some(b) = bytes {
+                    match inst.de(&b) {
+                        Ok(restored) => inst = restored,
+                        Err(e) => return Some((0usize, e.0)),
+                    }
+                }
+                for (i, op) in ops2.iter().enumerate() {
+                    if let Res::Panic(m) | Res::Error(m) = inst.apply(op) {
+                        return Some((i, m));
+                    }
+                }
+                None
+            })
+            .join();
+            rep.evaluations += ops.len() as u64;
+            match res {
+                Ok(None) => {}
+                Ok(Some((i, m))) => violation(rep, &p, &ops[..=i.min(ops.len() - 1)], &m, "foreign_thread"),
+                Err(_) => violation(rep, &p, &ops, "the foreign thread itself panicked", "foreign_thread"),
+            }
+            rep.count("programs_on_foreign_thread");
+            rep.distinct_by_construction += 1;
+        }
+    })
+}
+
 pub fn run(ctx: &Ctx) -> Report {
     let mut rep = Report::new();
+    if ctx.phase_enabled("foreign") {
+        rep.merge(run_foreign_thread(ctx));
+    }
     if ctx.phase_enabled("defaults") {
         rep.merge(run_defaults(ctx));
     }
@@ -310,7 +368,7 @@ pub fn run(ctx: &Ctx) -> Report {
                 rep.inconclusive.push(format!("coverage floor missed: {} = 0", key));
             }
         }
-        for key in ["programs_large_period", "long_runs", "programs_on_default_instances"] {
+        for key in ["programs_large_period", "long_runs", "programs_on_default_instances", "programs_on_foreign_thread"] {
             if rep.counters.get(key).copied().unwrap_or(0) == 0 {
                 rep.inconclusive.push(format!("coverage floor missed: {} = 0", key));
             }
